@@ -352,9 +352,10 @@ func runMutant(args []string) int {
 	repo := core.RepoDirFromEnv()
 	res := mutantResult{}
 	overlay := map[string][]byte{}
-	if args[1] == "negctl" {
-		res.Name, res.Expect = "negative control: locals renamed", "(silence)"
-		ov, err := renameOverlay(repo)
+	_, isCtl := negativeControls[args[1]]
+	if ctl, ok := negativeControls[args[1]]; ok {
+		res.Name, res.Expect = "negative control: "+ctl.name, "(silence)"
+		ov, err := rewriteOverlay(repo, ctl.rules)
 		if err != nil {
 			res.Status, res.Detail = "invalid", err.Error()
 			return emit(res)
@@ -418,7 +419,7 @@ func runMutant(args []string) int {
 			continue
 		}
 		res.FiredBy = append(res.FiredBy, f.Key())
-		if args[1] != "negctl" && strings.Contains(f.Rule, res.Expect) {
+		if !isCtl && strings.Contains(f.Rule, res.Expect) {
 			fired = true
 		}
 	}
@@ -427,9 +428,9 @@ func runMutant(args []string) int {
 		res.FiredBy = append(res.FiredBy[:6], fmt.Sprintf("… %d more", len(res.FiredBy)-6))
 	}
 	switch {
-	case args[1] == "negctl" && len(res.FiredBy) == 0:
+	case isCtl && len(res.FiredBy) == 0:
 		res.Status = "silent"
-	case args[1] == "negctl":
+	case isCtl:
 		res.Status = "alarmed"
 	case fired:
 		res.Status = "killed"
@@ -454,7 +455,18 @@ var negctlRenames = []string{"coord -> cpt", "subsetGlyphID -> sid", "dpmm -> px
 	"thetaTop -> angY", "thetaRight -> angX", "dashArray -> dashArr", "totalLength -> period", "widths -> advs", "first -> subStart", "open -> pending",
 	"fun -> fnName", "hw -> halfW", "prevCmd -> lastCmd", "repeat -> again", "keepPath -> keep", "sfntSubset -> sub", "glyphIDs -> gids"}
 
-func renameOverlay(repo string) (map[string][]byte, error) {
+// negativeControls are behaviour-preserving rewrites of the whole module (gofmt -r) on which
+// every check has to stay silent.
+var negativeControls = map[string]struct {
+	name  string
+	rules []string
+}{
+	"negctl":         {"locals renamed", negctlRenames},
+	"negctl-flip":    {"every comparison written the other way round (a < b as b > a, a == b as b == a)", []string{"a < b -> b > a", "a <= b -> b >= a", "a == b -> b == a", "a != b -> b != a"}},
+	"negctl-commute": {"factors of products and arguments of math.Min/Max swapped", []string{"math.Min(a, b) -> math.Min(b, a)", "math.Max(a, b) -> math.Max(b, a)", "a * b -> b * a"}},
+}
+
+func rewriteOverlay(repo string, rules []string) (map[string][]byte, error) {
 	tmp, err := os.MkdirTemp("", "canvascheck-negctl")
 	if err != nil {
 		return nil, err
@@ -484,7 +496,7 @@ func renameOverlay(repo string) (map[string][]byte, error) {
 		}
 		copies = append(copies, cp)
 	}
-	for _, r := range negctlRenames {
+	for _, r := range rules {
 		args := append([]string{"-r", r, "-w"}, copies...)
 		if out, err := exec.Command("gofmt", args...).CombinedOutput(); err != nil {
 			return nil, fmt.Errorf("gofmt -r %q: %v: %s", r, err, out)
@@ -507,7 +519,7 @@ func selfValidate(id string, r *core.Report, extra map[string]any) {
 		r.Infra("selfcheck", err.Error())
 		return
 	}
-	jobs := []string{"negctl"}
+	jobs := []string{"negctl", "negctl-flip", "negctl-commute"}
 	for i := range Mutants[id] {
 		jobs = append(jobs, fmt.Sprint(i))
 	}
@@ -539,10 +551,11 @@ func selfValidate(id string, r *core.Report, extra map[string]any) {
 	killed, total := 0, 0
 	for _, res := range results {
 		if res.Expect == "(silence)" {
+			what := strings.TrimPrefix(res.Name, "negative control: ")
 			if res.Status == "silent" {
-				r.OK("selfcheck.negative-control", id+"|locals renamed", "", "no alarm on a behaviour-preserving renaming of 27 locals")
+				r.OK("selfcheck.negative-control", id+"|"+what, "", "no alarm on a behaviour-preserving rewrite of the whole module")
 			} else {
-				r.Fail("selfcheck.negative-control", id+"|locals renamed", "", fmt.Sprintf("the check alarms (%s) on a copy of the tree in which only local variables were renamed: %v %s", res.Status, res.FiredBy, res.Detail))
+				r.Fail("selfcheck.negative-control", id+"|"+what, "", fmt.Sprintf("the check alarms (%s) on a behaviour-preserving copy of the tree (%s): %v %s", res.Status, what, res.FiredBy, res.Detail))
 			}
 			continue
 		}
